@@ -35,7 +35,7 @@ WEIGHTS = {"update_attrs": 1.5, "ctrl": 1.0}
 
 def plan(tier, seed):
     # + the repository's own test-suite, unedited, as one more workload under the same monitor
-    return common.session_plan(PROP, tier, seed, quick=160, thorough=3000) + [common.pytest_spec()]
+    return [common.pytest_spec()] + common.session_plan(PROP, tier, seed, quick=160, thorough=3000)
 
 
 def run_shard(spec):
